@@ -259,8 +259,20 @@ def oracle(pid, ctx, stream_prefix="ledger"):
 
 
 # ------------------------------------------------------------------------------------------------------------------------------ replay
+def with_current_fixes(program):
+    """the `cfg` line of a stored program names the repairs that were in the tree when it was recorded: use today's"""
+    out = []
+    for l in program:
+        w = l.split()
+        if w and w[0] == "cfg" and len(w) >= 9:
+            l = " ".join(w[:9] + [",".join(FIXED) if FIXED else "-"])
+        out.append(l)
+    return out
+
+
 def run_program(ctx, exe, program, tag="oracle"):
     """execute one program on the real code; returns the answer lines"""
+    program = with_current_fixes(program)
     build = ctx["build"]
     os.makedirs(build, exist_ok=True)
     src = os.path.join(build, tag + ".in")
@@ -307,7 +319,7 @@ def replay(pid, payload, ctx):
     ans = run_program(ctx, exe, payload["program"], "replay")
     subprocess.run(["lake", "build", "mmdrv_ledger"], cwd=os.path.join(ctx["here"], "lean"), stdout=subprocess.PIPE, stderr=subprocess.STDOUT)
     drv = os.path.join(ctx["here"], "lean", ".lake", "build", "bin", "mmdrv_ledger")
-    model = subprocess.run([drv], input="\n".join(payload["program"]) + "\n", stdout=subprocess.PIPE, text=True).stdout.split("\n") if os.path.exists(drv) else []
+    model = subprocess.run([drv], input="\n".join(with_current_fixes(payload["program"])) + "\n", stdout=subprocess.PIPE, text=True).stdout.split("\n") if os.path.exists(drv) else []
     print("program:")
     for l in payload["program"]:
         print("   ", l)
